@@ -195,6 +195,11 @@ pub mod weird_token {
         pub fn balance(_env: Env, _id: Address) -> i128 {
             0
         }
+        /// the token's issuer renames it
+        pub fn rebrand(env: Env, name: String, symbol: String) {
+            env.storage().instance().set(&Symbol::new(&env, "n"), &name);
+            env.storage().instance().set(&Symbol::new(&env, "s"), &symbol);
+        }
     }
 }
 
